@@ -34,6 +34,7 @@ E2E_ENV = {"ARVADOS_API_HOST": "localhost:9"}
 DRIVERS = {
     "e2e": {"kind": "gotest", "pkg": "lib/dispatchcloud", "test": "TestVerifC14", "min_chunk": 1, "shards": 6,
             "isolate": True, "case_timeout": 120, "timeout": 1500, "env": E2E_ENV},
+    "q": {"kind": "gotest", "pkg": "lib/dispatchcloud/container", "test": "TestVerifC14", "min_chunk": 300},
     "l1": {"kind": "gotest", "pkg": "lib/dispatchcloud/scheduler", "test": "TestVerifC14", "min_chunk": 400},
     "l2": {"kind": "gotest", "pkg": "lib/dispatchcloud/worker", "test": "TestVerifC14", "min_chunk": 100,
            "isolate": True, "case_timeout": 60},
@@ -48,6 +49,8 @@ def channel(case):
         return "l1"
     if op == "pl":
         return "l2"
+    if op == "lq":
+        return "q"
     return "e2e"
 
 
@@ -313,6 +316,51 @@ def _gen_pl_truthful(rng, n):
     return out
 
 
+def _gen_lq(rng, n):
+    """container.Queue against a fake API: local Lock/Unlock/Cancel/Forget and foreign state changes placed
+    between the list requests of gated polls."""
+    out = []
+    for _ in range(n):
+        uu = rng.sample(range(1, 9), rng.choice([1, 2, 3, 4]))
+        recs = ["%d:%s:%d" % (u, rng.choice("QQQLLRCX"), rng.choice([0, 1, 5])) for u in uu]
+        ops = []
+        if rng.random() < 0.7:
+            ops.append("fu")
+        for _ in range(rng.randint(2, 14)):
+            u = rng.choice(uu + [9])
+            r = rng.random()
+            if r < 0.12:
+                ops.append("up")
+            elif r < 0.40:
+                ops.append("nx")
+            elif r < 0.46:
+                ops.append("fu")
+            elif r < 0.56:
+                ops.append("lk%d" % u)
+            elif r < 0.64:
+                ops.append("ul%d" % u)
+            elif r < 0.69:
+                ops.append("cn%d" % u)
+            elif r < 0.75:
+                ops.append("fg%d" % u)
+            elif r < 0.80:
+                ops.append("ec%d" % u)
+            elif r < 0.85:
+                ops.append("er%d" % u)
+            elif r < 0.89:
+                ops.append("eo%d" % u)
+            elif r < 0.93:
+                ops.append("ep%d:%d" % (u, rng.choice([0, 1, 7])))
+            elif r < 0.96:
+                ops.append("es%d:%d" % (rng.choice([9, 10]), rng.choice([0, 3])))
+            else:
+                ops.append("gt%d" % u)
+        for u in uu:
+            ops.append("gt%d" % u)
+        out.append("lq %s %s" % (",".join(recs), ",".join(ops)))
+    return out
+
+
 def _gen_e2e(rng, tier):
     """Randomized fault scenarios on the stub cloud (real scheduler + pool + test.Queue + StubDriver)."""
     out = []
@@ -339,6 +387,7 @@ def generate(rng, tier):
     cases = []
     cases += _gen_e2e(rng, tier)
     cases += _gen_fs(rng, 400 if tier == "quick" else 20000)
+    cases += _gen_lq(rng, 1200 if tier == "quick" else 40000)
     cases += _gen_pl(rng, 1500 if tier == "quick" else 60000)
     cases += _gen_pl_truthful(rng, 600 if tier == "quick" else 20000)
     cases += _gen_rq_exhaustive(tier, rng)
@@ -606,6 +655,51 @@ def oracle(case, impl):
         return None
     if f[0] == "e2e":
         return _oracle_e2e(f, impl)
+    if f[0] == "lq":
+        return _oracle_lq(f, impl)
+    return None
+
+
+def _oracle_lq(f, impl):
+    """Property text: a container is started only while the dispatcher's queue shows it Locked, which must
+    mean it is locked by this dispatcher: replay the API side from the ops and the reported call results, and
+    demand that whenever the cache reports L the API record is not Queued (and known)."""
+    if ";" not in impl:
+        return "driver could not observe the queue: " + impl[:200]
+    res = _split(impl.split(";", 1)[0])
+    api = {}
+    for r in _split(f[1]):
+        u, st, pr = r.split(":")
+        api[int(u)] = st
+    it = iter(res)
+    for op in _split(f[2]):
+        k, arg = op[:2], op[2:]
+        if k in ("lk", "ul", "cn"):
+            ok = next(it, None) == "k"
+            u = int(arg)
+            if ok:
+                want = {"lk": "Q", "ul": "L"}.get(k)
+                if k != "cn" and api.get(u) != want:
+                    return f"{op} succeeded although the API record of {u} is {api.get(u)}"
+                api[u] = {"lk": "L", "ul": "Q", "cn": "X"}[k]
+        elif k == "ec":
+            if api.get(int(arg)) in ("Q", "L", "R"):
+                api[int(arg)] = "X"
+        elif k == "er":
+            if api.get(int(arg)) == "L":
+                api[int(arg)] = "R"
+        elif k == "eo":
+            if api.get(int(arg)) == "R":
+                api[int(arg)] = "C"
+        elif k == "es":
+            u = int(arg.split(":")[0])
+            api.setdefault(u, "Q")
+        elif k == "gt":
+            got = next(it, None)
+            u = int(arg)
+            if got == "L" and api.get(u) in ("Q", None):
+                return (f"the queue shows container {u} as Locked while its API record is "
+                        f"{api.get(u) or 'unknown'} (not locked by this dispatcher)")
     return None
 
 
@@ -638,6 +732,8 @@ def nontrivial_key(case, impl):
         return case if "0" in impl.split(";")[0] else None
     if f[0] == "pl":
         return case if impl.count(";") == 2 else None
+    if f[0] == "lq":
+        return case if "k" in impl.split(";")[0] or "L" in impl else None
     if f[0] == "fs":
         return case if re.search(r"(st|qu|pk)\d", impl) else None
     if f[0] == "e2e":
